@@ -71,7 +71,7 @@ def build(repo, findings):
         let a2 = if a < i { a } else { a + 1 }; let b2 = if b < i { b } else { b + 1 };
         assert(fmap[a] == fm0[a2] && fmap[b] == fm0[b2] && a2 < b2);
     }
-}''', fn_name=fn)
+}''', fn_name=fn, optional=True)
     im.before(r'^\s*completed_jobs$', 'proof { if ids_distinct(old(self).jobs@) { lemma_subseq_distinct(self.jobs@, old(self).jobs@, fmap); } }', fn_name=fn)
     # poll
     fn = 'poll'
